@@ -2,7 +2,7 @@
 //! properties: C02
 //! note: RAA blockers (PeerState::actions_blocking_raa_monitor_updates): registering a blocker on a channel appends it to that channel's list and never drops a blocker already registered (for this or any other channel) -- the monitor update of the downstream peer's next revoke_and_ack stays held until every upstream preimage it depends on is durably persisted
 //! trusted: R15 (deep slices): the statement(s) that register an RAA blocker in (a) internal_update_fulfill_htlc (body of `for prev_hop in res.0.previous_hop_data()`), (b) claim_mpp_part (live-channel arm), (c) claim_mpp_part (closed-channel arm, `.or_default()`), (d) from_channel_manager_data (re-registering the blockers of queued EmitEventOptionAndFreeOtherChannel actions on reload), each verbatim as a function of the blocker map; everything around them (the channel state machine call, the preimage monitor update, the completion actions) is dropped and not claimed here
-//! trusted: R15 (deep slice): handle_monitor_update_release: the predicate of the `retain` that removes the completed blocker from its channel's list, verbatim as a bool function; RAAMonitorUpdateBlockingAction's derived PartialEq is structural equality; the retain call itself, the removal of an emptied list and raa_monitor_updates_held are dropped and not claimed
+//! trusted: R15 (deep slice): handle_monitor_update_release: the predicate of the `retain` that removes the completed blocker from its channel's list, verbatim as a bool function; RAAMonitorUpdateBlockingAction's derived PartialEq is structural equality; the retain call itself and the removal of an emptied list are dropped and not claimed; raa_monitor_updates_held: the closure body and the default of `.get(&channel_id).map(|v| ..).unwrap_or(..)` (first disjunct) are placed in the two arms of a match on the looked-up list (std semantics of Option::map / unwrap_or); the second disjunct (pending ReleaseRAAChannelMonitorUpdate events) is dropped and not claimed
 //! trusted: env: the BTreeMap<ChannelId, Vec<RAAMonitorUpdateBlockingAction>> is an environment type whose entry API carries the std contracts, written with Verus' mutable-reference prophecy: entry(k) lends the slot of k (None when absent), what is left in the slot is what the map holds afterwards; or_insert_with / or_insert / or_default fill an empty slot (with the result of the closure / the value / an empty Vec) and lend the vector; Vec::new has vstd's specification; a key closure without a specification is unconstrained; RAAMonitorUpdateBlockingAction is opaque, from_prev_hop_data is an uninterpreted function of the hop data; R3: log_trace! statements removed; R10: `blocked_peer_state.lock().unwrap()` is written `blocked_peer_state` (Mutex guard elided: single-threaded reading)
 use vstd::prelude::*;
 verus! {
@@ -126,6 +126,23 @@ pub open spec fn registered(m: Map<ChannelId, Blockers>, k: ChannelId, b: RAAMon
     retain(|iter| iter != &blocker)
 //@with
     retain(|iter| iter == &blocker)
+//@end
+
+// ---- holding: a channel with a registered blocker keeps its revoke_and_ack monitor update held -------
+//@extract lightning/src/ln/channelmanager.rs :: impl ChannelManager :: fn raa_monitor_updates_held
+//@slice R15
+    actions_blocking_raa_monitor_updates .get(&channel_id).map(|v| $p:cond).unwrap_or($d:cond) ||
+//@with
+    fn listed_blockers_hold_the_update(blockers: Option<&Vec<RAAMonitorUpdateBlockingAction>>) -> bool {
+        match blockers { Some(v) => { $p }, None => { $d } }
+    }
+//@ret r
+//@ensures P C02 the-monitor-update-of-a-revoke-and-ack-is-held-while-the-channel-has-any-registered-blocker
+    r == (blockers is Some && blockers->Some_0@.len() > 0),
+//@mutant update_released_despite_blockers
+    .map(|v| !v.is_empty())
+//@with
+    .map(|v| v.is_empty())
 //@end
 }
 fn main() {}
